@@ -27,7 +27,7 @@ SEQ_ACTIONS = ["M_Dequeue", "M_Skip", "M_SpawnTask", "M_PollTasks", "M_LockVfs",
                "M_OpenStore", "M_WatchedDelete", "M_UnlockVfs", "M_TakeChange", "M_RequestCancel", "M_AcquireDbWrite",
                "M_SetInputs", "M_SpawnDiagT", "M_Close", "D_Emit", "E_Publish", "T_Start", "T_Aborted", "T_ReadVfs", "T_QueryDone",
                "T_Return", "D_Return", "C_Script", "Finish"]
-DOC_KIND = {"u": "untitled", "h": "file_with_authority", "g": "other_scheme", "o": "outside_package", "e": "percent_encoded", "n": "percent_encoded_not_utf8",
+DOC_KIND = {"u": "untitled", "h": "file_with_authority", "g": "other_scheme", "o": "outside_package", "e": "percent_encoded", "n": "percent_encoded_not_utf8", "p": "named_pipe",
             "q": "query_fragment"}
 PER_SESSION = 25
 DEADLINE = 30.0
@@ -112,6 +112,7 @@ class Player:
         self.disk = {"d1": ["a", "nl", "a"], "d2": ["a"]}            # = DiskText of the spec
         for d, units in self.disk.items():
             open(self.path(d), "w", newline="").write(render(units, tab))
+        os.mkfifo(os.path.join(self.pkg, "src", "pipe.gleam"))
         self.ids = []
 
     def path(self, d):
@@ -120,6 +121,8 @@ class Player:
             return None
         if d == "o":                                   # outside any package: no gleam.toml above it
             return os.path.join(self.root, f"outside{self.k}", "o.gleam")
+        if d == "p":                                   # a named pipe (created at set-up, never removed)
+            return os.path.join(self.pkg, "src", "pipe.gleam")
         if d == "n":                                   # a file name that is not valid UTF-8 (legal on this platform)
             return os.fsdecode(os.fsencode(os.path.join(self.pkg, "src")) + b"/\xff\xfen.gleam")
         name = {"e": "caf\u00e9 \u4e2d x", "q": "d3"}.get(d, d)
@@ -212,7 +215,7 @@ class Player:
         elif k == "save":
             s.notify("textDocument/didSave", {"textDocument": td})
         elif k == "fsdel":
-            if self.path(d) and os.path.exists(self.path(d)):
+            if d != "p" and self.path(d) and os.path.exists(self.path(d)):
                 os.remove(self.path(d))
         elif k == "cancel":
             s.notify("$/cancelRequest", {"id": 987654})
